@@ -13,6 +13,8 @@ from vf import lab
 from vf.core import Prop, Outcome, fd
 
 from deep.api.tracepoint.trigger import build_trigger
+from deep.grpc import convert_response
+from deepproto.proto.tracepoint.v1.tracepoint_pb2 import TracePointConfig
 
 PATH, LINE = 'c16_host.py', 4
 
@@ -53,7 +55,7 @@ GOOD = ['name', 'count', 'count + 1', 'person', 'person.name', 'person.age * 2',
 BAD = ['nope', '1/0', 'person.nope', 'items[99]', "data['missing']", 'count +', 'shout()', 'int(name)', 'uuid',
        'deep', 'len(count)', 'boom_unprintable()']
 LITERALS = ['', ' ', 'value=', ' and ', 'x', '100% done ', 'café ', '\U0001F600', ' -> ', '%s %d ', 'a.b[c] ',
-            'line1\\n', '"quoted" ', "it's ", '$', '#tag ']
+            'line1\\n', '"quoted" ', "it's ", '$', '#tag ', 'end\n', '\tindent ', '  ']
 
 
 BIG = [[[[i * 1000 + j * 100 + k * 10 + m for m in range(10)] for k in range(10)] for j in range(10)] for i in range(3)]
@@ -153,6 +155,8 @@ class C16(Prop):
             'flag': st.booleans(),
             'watches': st.lists(st.sampled_from(['name', 'count', 'nope']), max_size=1),
             'logger': st.sampled_from(['recording', 'recording', 'python_plugin']),
+            'route': st.sampled_from(['args', 'args', 'response']),
+            'snapshot_arg': st.sampled_from([None, None, None, 'collect', 'NO_COLLECT', 'No_Collect', 'yes']),
         })
 
     def run_case(self, recipe):
@@ -188,11 +192,29 @@ class C16(Prop):
         has_lit = any(p[0] != 'field' and (p[0] != 'lit' or p[1]) for p in recipe['parts'])
         out.nontrivial = nfields >= 1 and has_lit
         args = {'fire_count': recipe['fire_count'], 'fire_period': '0', 'log_msg': template}
+        odd_snapshot_arg = False
         if not recipe['collect']:
             args['snapshot'] = 'no_collect'
         else:
             out.cls('log_and_snapshot')
-        trig = build_trigger('tp-log-1', PATH, LINE, args, list(recipe['watches']) if recipe['collect'] else [], [])
+            if recipe.get('snapshot_arg'):
+                # any other value of the argument than the one that switches collection off: whether a snapshot comes
+                # with the message is not the subject here, the message is
+                args['snapshot'] = recipe['snapshot_arg']
+                odd_snapshot_arg = recipe['snapshot_arg'] != 'collect'
+                out.cls('snapshot_argument_spelled_out')
+        watches = list(recipe['watches']) if recipe['collect'] else []
+        if recipe.get('route') == 'response':
+            # the tracepoint as the service sends it
+            out.cls('tracepoint_from_a_poll_response')
+            trigs = convert_response([TracePointConfig(ID='tp-log-1', path=PATH, line_number=LINE, args=args,
+                                                       watches=watches)])
+            if len(trigs) != 1:
+                out.violate('a log tracepoint of a poll response was dropped', {'template': template})
+                return out
+            trig = trigs[0]
+        else:
+            trig = build_trigger('tp-log-1', PATH, LINE, args, watches, [])
         logger = lab.RecLogger()
         stock = recipe.get('logger') == 'python_plugin'
         handler, cfg, push = lab.make_handler([trig], plugins=[logger])
@@ -287,7 +309,7 @@ class C16(Prop):
             if not re.fullmatch(r'[0-9a-f]{8}-[0-9a-f]{4}-[0-9a-f]{4}-[0-9a-f]{4}-[0-9a-f]{12}', str(ctx_id)):
                 out.violate('logger did not receive the context id in its context-id place', {'ctx_id_arg': ctx_id})
                 break
-            if recipe['collect']:
+            if recipe['collect'] and not (odd_snapshot_arg and not new_snaps):
                 if len(new_snaps) != 1:
                     out.violate('log+snapshot tracepoint produced %d snapshots' % len(new_snaps))
                     break
